@@ -5,6 +5,8 @@ import common
 PROPS = "RotoV.Props.C18"
 PROPS_USE = "RotoV.Props.C18Use"
 PROPS_PASSES = "RotoV.Props.C18Passes"
+PROPS_HISTORY = "RotoV.Props.C18History"
+PROPS_NAMES = "RotoV.Props.C18Names"
 
 
 def search(ctx):
@@ -20,7 +22,7 @@ def search(ctx):
 
 
 def run(ctx):
-    ctx.extract(["keywords", "flattenuse", "regpasses"])
+    ctx.extract(["keywords", "flattenuse", "regpasses", "itemnames"])
     # three theorem modules, so that a change to the macro breaks exactly the T5 obligations, a change to the pass
     # structure of Rt::add exactly those of C18Passes and a change to the lexer's keyword table the others
     parts = []
@@ -37,8 +39,13 @@ def run(ctx):
                         "RotoV.Lemmas.RegistrationOps", "RotoV.Lemmas.RegistrationClosed",
                         "RotoV.Lemmas.RegistrationOrder", "RotoV.Lemmas.RegistrationExact",
                         "RotoV.Lemmas.RegistrationDefects", "RotoV.Lemmas.RegistrationReach",
-                        "RotoV.Lemmas.RegistrationAccepts", "RotoV.Lemmas.RegistrationOrigin", "RotoV.Model.Registration",
+                        "RotoV.Lemmas.RegistrationAccepts", "RotoV.Lemmas.RegistrationOrigin", "RotoV.Lemmas.RegistrationKind",
+                        "RotoV.Model.Registration",
                         "RotoV.Model.RegistrationSrc"])
+    # histories of adds with rejected adds in them (a rejected add is the identity; T1/T2/T4 over histories)
+    ok4 = prove(PROPS_HISTORY, ["RotoV.Lemmas.RegistrationSession", "RotoV.Model.RegistrationSession"])
+    # library!: the name every item is registered under (regenerated from macros/src/lib.rs) is the identifier written
+    ok5 = prove(PROPS_NAMES, ["RotoV.Model.RegistrationMacroNames"])
     ok2 = prove(PROPS_USE, ["RotoV.Lemmas.UseTree", "RotoV.Model.UseTree"])
     # the theorems that mention the regenerated pass structure (pass order, per-arm scope, declare_import walk)
     ok3 = prove(PROPS_PASSES)
@@ -46,7 +53,7 @@ def run(ctx):
         ctx.coverage["theorems"] = [t for p in parts for t in p["theorems"]]
         ctx.coverage["nonvacuity_examples"] = sum(p["nonvacuity_examples"] or 0 for p in parts)
         ctx.coverage["axioms"] = {k: v for p in parts for k, v in (p["axioms"] or {}).items()}
-    ok2 = ok2 and ok3
+    ok2 = ok2 and ok3 and ok4 and ok5
     if not (ok1 and ok2):
         ctx.lake_build(["rotov-driver"])
     if ctx.build_harness("c18"):
